@@ -32,6 +32,7 @@ from clematis.engine.policy.sanitize import parse_and_validate  # noqa: E402
 from clematis.engine.policy.json_schemas import PLANNER_V1  # noqa: E402
 from clematis.engine.stages.t3 import deliberate as real_deliberate, llm_speak, make_dialog_bundle, make_plan_bundle  # noqa: E402
 import importlib  # noqa: E402
+import clematis.engine.stages.t3.dialogue as dialogue  # noqa: E402
 
 policy = importlib.import_module("clematis.engine.stages.t3.policy")
 
@@ -77,6 +78,11 @@ TRANSPORT = ["ok", "ok", "ok", "urlerror", "timeout", "non_utf8", "not_json_enve
 _TAUS = [0.0, 0.0, 0.2, 0.4, 0.5, 0.8, 1.0]
 
 
+_T2_EXC = {"OSError": lambda: OSError(5, "injected EIO"), "TimeoutError": TimeoutError, "BlockingIOError": BlockingIOError, "FileNotFoundError": FileNotFoundError,
+           "ConnectionError": ConnectionError, "ValueError": ValueError, "RuntimeError": RuntimeError}
+_T2_EXC = {k: (v if isinstance(v, type) else type(v())) for k, v in _T2_EXC.items()}
+
+
 def _gen_bundle(r) -> Dict[str, Any]:
     th, tl = r.choice(_TAUS), r.choice(_TAUS)
     if tl > th:
@@ -99,6 +105,11 @@ def _gen_bundle(r) -> Dict[str, Any]:
         b["cfg"]["t3"]["policy"] = pol
     if r.chance(0.4):
         b["slice_caps"] = {"t3_ops": r.choice([0, 1, 2, 5])}
+    b["dialog_caps_tokens"] = r.choice([0, 1, 8, 256])
+    if r.chance(0.3):
+        b["style_prefix"] = r.choice(["calm", "two words"])
+    if r.chance(0.3):
+        b["template"] = r.choice(["{intent} {labels}", "{labels}", "say {intent} now please thank you"])
     return b
 
 
@@ -122,6 +133,16 @@ def generate(seed: int, tier: str) -> Dict[str, Any]:
             th, tl = r.choice(_TAUS), r.choice(_TAUS)
             raw.setdefault("t3", {})["policy"] = {"tau_high": max(th, tl), "tau_low": min(th, tl), "epsilon_edit": r.choice([0.0, 0.05, 0.1, 0.5])}
         ops = E.gen_ops(rng.stream("ops"), world, r.randint(2, 5), p_mut=0.1)
+        if r.chance(0.3):
+            # a retrieval backend that fails on the first attempt of the refinement (or of the turn), once or persistently
+            raw.setdefault("t2", {})["sim_threshold"] = 0.3
+            th, tl = r.choice([0.8, 1.0]), r.choice([0.8, 1.0])
+            raw.setdefault("t3", {})["policy"] = {"tau_high": max(th, tl), "tau_low": min(th, tl)}
+            raw["t3"]["max_rag_loops"] = 1
+            raw["t3"].pop("max_ops_per_turn", None)
+            for o in ops:
+                if o["op"] == "turn" and r.chance(0.7):
+                    o["t2_fault"] = {"calls": r.choice([[1], [1], [1, 2], [0], [1, 2, 3]]), "exc": r.choice(sorted(_T2_EXC))}
         return {"target": "turns", "world": world, "cfg": raw, "ops": ops, "style_prefix": r.choice(["", "calm", "two words", "very calm indeed", "a|b c"])}
     script = []
     for _ in range(r.randint(1, 4)):
@@ -349,9 +370,16 @@ def _turns(p: Dict[str, Any], stats: Dict[str, int]) -> List[Dict[str, Any]]:
             real_t2 = core.t2_semantic
             cnt = {"t2": 0}
             seen: Dict[str, Any] = {}
+            cur_fault: Dict[str, Any] = {"f": None}
 
             def t2w(ctx, state, text, t1):
                 cnt["t2"] += 1
+                fl = cur_fault.get("f")
+                if fl and cnt["t2"] - 1 in fl["calls"]:
+                    # the retrieval backend fails (reader I/O, time-out): whatever the turn does about it,
+                    # it must not turn one refinement into several
+                    stats["retrieval_faults_fired"] = stats.get("retrieval_faults_fired", 0) + 1
+                    raise _T2_EXC[fl["exc"]]()
                 return real_t2(ctx, state, text, t1)
 
             def delib(ctx, state, bundle):
@@ -380,7 +408,22 @@ def _turns(p: Dict[str, Any], stats: Dict[str, int]) -> List[Dict[str, Any]]:
                     top = dict(op)
                     if p.get("style_prefix"):
                         top["ctx"] = {"style_prefix": p["style_prefix"]}
-                    res = run.step(top)
+                    cur_fault["f"] = op.get("t2_fault")
+                    try:
+                        res = run.step(top)
+                    except tuple(x for x in _T2_EXC.values()) as e:
+                        if not op.get("t2_fault"):
+                            raise
+                        # the injected failure surfaced: the turn is over; the retrieval count still binds
+                        stats["turns_ended_by_retrieval_fault"] = stats.get("turns_ended_by_retrieval_fault", 0) + 1
+                        if cnt["t2"] > 2:
+                            bad("more-than-one-refinement", "%d retrieval calls in one turn (retrieval failing with %s at call(s) %s); op#%d text=%r" % (
+                                cnt["t2"], type(e).__name__, op["t2_fault"]["calls"], oi, op["text"]))
+                        if viol:
+                            break
+                        continue
+                    finally:
+                        cur_fault["f"] = None
                     t3 = run.cfg.get("t3") or {}
                     tokens = int(t3.get("tokens", 256))
                     ctxs = "op#%d text=%r t3=%s slice=%s" % (oi, op["text"], {k: t3.get(k) for k in ("max_ops_per_turn", "tokens", "policy", "max_rag_loops")},
@@ -428,6 +471,15 @@ def _turns(p: Dict[str, Any], stats: Dict[str, int]) -> List[Dict[str, Any]]:
                 core.t2_semantic = real_t2
                 orch.t2_semantic = real_t2
     return viol
+
+
+class _Echo:
+    """An adapter that answers with five plain words."""
+    name = "echo"
+
+    def generate(self, prompt, max_tokens, temperature):
+        import types as _t
+        return _t.SimpleNamespace(text="one two three four five", tokens=5, truncated=False)
 
 
 def _bundles(p: Dict[str, Any], stats: Dict[str, int]) -> List[Dict[str, Any]]:
@@ -481,6 +533,26 @@ def _bundles(p: Dict[str, Any], stats: Dict[str, int]) -> List[Dict[str, Any]]:
                     bad("edit-selection-not-by-epsilon", "edits %s, nodes with |delta| >= %s are %s; %s" % (ids, eps, want_ids, ctxs))
         if cap >= 2 and s >= tl and "EditGraph" not in kinds and any(abs(float(n.get("delta", 0.0))) >= eps for n in b0["t1"]["touched_nodes"]):
             bad("edit-missing", ctxs)
+        # speaking the plan: the utterance stays within the Speak op's own budget (0 included), whatever the agent-level
+        # default of the dialogue bundle says
+        if ops and kinds[0] == "Speak":
+            budget = int(ops[0].max_tokens)
+            caps_tokens = b0.get("dialog_caps_tokens", 8)
+            dlg = {"agent": {"caps": {"tokens": caps_tokens}, "style_prefix": b0.get("style_prefix", "")},
+                   "text": {"labels_from_t1": list(b0["text"]["labels_from_t1"])},
+                   "dialogue": {"template": b0.get("template", "summary: {labels}. next: {intent}")}}
+            for fn_name in ("speak", "llm_speak"):
+                try:
+                    if fn_name == "speak":
+                        utter, met = dialogue.speak(copy.deepcopy(dlg), plan)
+                    else:
+                        utter, met = dialogue.llm_speak(copy.deepcopy(dlg), plan, _Echo())
+                except Exception as e:  # noqa: BLE001
+                    bad("%s-raised:%s" % (fn_name, type(e).__name__), "%r; %s" % (e, ctxs))
+                    continue
+                if len(str(utter).split()) > max(budget, 0):
+                    bad("utterance-over-budget:%s:pure" % fn_name, "%d tokens with Speak.max_tokens=%d (bundle default %s): %r; %s" % (len(str(utter).split()), budget, caps_tokens, utter, ctxs))
+                stats["spoken_budget_%s" % ("zero" if budget == 0 else "positive")] = stats.get("spoken_budget_%s" % ("zero" if budget == 0 else "positive"), 0) + 1
     return viol
 
 
